@@ -218,6 +218,11 @@ class ExprMixin:
                 b = self.eval(e.orelse, path)
             finally:
                 path.guards.pop()
+            if (isinstance(a, sv.SPy) or isinstance(b, sv.SPy)) and not (isinstance(a, sv.SPy) and isinstance(b, sv.SPy)
+                                                                      and a.what == b.what and a.payload == b.payload):
+                # python-level values (functions, classes) cannot be merged symbolically: case split
+                k = self.choose(path, [c, sv.Not(c)])
+                return a if k == 0 else b
             return sv.ite(c, a, b)
         k = self.choose(path, [c, sv.Not(c)])
         return self.eval(e.body if k == 0 else e.orelse, path)
